@@ -135,7 +135,7 @@ def group_labels(rng, n, kind, typ):
     return labs
 
 
-def _str_labels(ints, uni=False):
+def _str_labels(ints, uni=False, near=False):
     table = {}
     out = []
     for x in ints:
@@ -143,6 +143,10 @@ def _str_labels(ints, uni=False):
             table[x] = 'g%d' % (len(table) * 9 + 2) if len(table) % 2 == 0 else 'G%d' % (len(table) * 3 + 10)
             if uni and len(table) % 3 == 0:
                 table[x] = 'ü' + table[x]
+            if near and len(table) == 2:
+                # two different labels that look alike: the first one with a trailing blank / in another case
+                first = next(iter(table.values()))
+                table[x] = first + ' ' if near == 'blank' else first.swapcase()
         out.append(table[x])
     return out
 
@@ -166,7 +170,7 @@ def gen_grouping(rng, n, kinds=('unique', 'groups', 'allsame'), allow_allsame=Tr
             rng.shuffle(labs)                          # else: the repeats sit together at the end
         labs = [x * 2 + 3 for x in labs]
     if typ == 'str':
-        labs = _str_labels(labs, uni=rng.chance(0.2))
+        labs = _str_labels(labs, uni=rng.chance(0.2), near=rng.pick([False, False, False, False, 'blank', 'case']))
     elif typ == 'int' and rng.chance(0.3):
         # labels that include zero and negative numbers (falsy / sign-sensitive handling)
         ds = sorted(set(labs))
@@ -216,6 +220,10 @@ def gen_rdms_spec(rng, n_rdm=(1, 6), n_cond=(3, 9), nan_prob=0.25, groupings=Tru
         spec['zeros'] = True
     if dtypes and rng.chance(0.1):
         spec['infs'] = True
+    if dtypes and rng.chance(0.15):
+        # a hand-kept list of labels of mixed types (run numbers and names): each item keeps its own value, type included
+        spec['rdm_desc']['mixed'] = {'values': [u if u % 2 else 'm%d' % u for u in rdm_uids], 'container': 'list'}
+        spec['pat_desc']['mixed'] = {'values': [u if u % 2 else 'k%d' % u for u in cond_uids], 'container': 'list'}
     if dtypes and rng.chance(0.12) and nr > 1:
         # a user-supplied 'index' for the RDMs (session number per subject ...): values repeat and are not positional
         spec['rdm_desc']['index'] = {'values': [i % max(1, nr // 2) for i in range(nr)], 'container': rng.pick(['list', 'array'])}
